@@ -899,3 +899,47 @@ func init() {
 		New: "\tvar newNearbys []roamMatch\n\tif r := obj.Geo().Rect(); old != nil && r.Min == r.Max && old.Geo().Rect() == r {\n\t\tnewNearbys = append([]roamMatch(nil), oldNearbys...)\n\t} else {\n\t\tnewNearbys = fenceMatchNearbys(s, fence, obj)\n\t}\n",
 		Why: "the same shortcut (a point re-set at the same position) with a copy of the list"})
 }
+
+func init() {
+	// ---- rules added after the third seeding round -----------------------------
+	mutant(&Mutant{Name: "fset-judges-against-stored-fields", Props: []string{"C01"}, File: fCrud,
+		Old:    "\t\t\tprev := ofields.Get(f.Name())\n\t\t\tif !prev.Value().Equals(f.Value()) {",
+		New:    "\t\t\tprev := o.Fields().Get(f.Name())\n\t\t\tif !prev.Value().Equals(f.Value()) {",
+		Expect: "R1.fold-reads-accumulator", Key: "cmdFSET/ofields", Why: "FSET k id a 5 a 0: the second pair is compared with the stored value, not with the value the first pair just set"})
+	mutant(&Mutant{Name: "neutral-fset-accumulator-renamed", Props: []string{"C01"}, File: fCrud, Neutral: true,
+		Edits: []Edit{{fCrud, `re:\bofields\b`, "merged"}},
+		Why:   "the accumulator of the FSET fold renamed"})
+	mutant(&Mutant{Name: "lives-queue-popped-from-the-end", Props: []string{"C07", "C05", "C10"}, File: fLive,
+		Old:    "\t\t\titem := s.lstack[0]\n\t\t\ts.lstack = s.lstack[1:]\n",
+		New:    "\t\t\titem := s.lstack[len(s.lstack)-1]\n\t\t\ts.lstack = s.lstack[:len(s.lstack)-1]\n",
+		Expect: "R7.log-order-delivery", Key: "queue/lstack", Why: "the seeded change C07c: pending write events reach the live connections newest first"})
+	mutant(&Mutant{Name: "livebuffer-details-popped-from-the-end", Props: []string{"C07", "C05"}, File: fLive,
+		Old:    "\t\t\tdetails := lb.details[0]\n\t\t\tlb.details = lb.details[1:]\n",
+		New:    "\t\t\tdetails := lb.details[len(lb.details)-1]\n\t\t\tlb.details = lb.details[:len(lb.details)-1]\n",
+		Expect: "R7.log-order-delivery", Key: "queue/details", Why: "the per-connection queue is consumed newest first"})
+	mutant(&Mutant{Name: "loadaof-trims-trailing-nuls", Props: []string{"C04"}, File: fAOF,
+		Old:    "\t\tvar complete bool\n\t\tfor {\n\t\t\tif len(data) > 0 && data[0] == 0 {",
+		New:    "\t\tdata = bytes.TrimRight(data, \"\\x00\")\n\t\tvar complete bool\n\t\tfor {\n\t\t\tif len(data) > 0 && data[0] == 0 {",
+		Edits:  []Edit{{fAOF, "import (\n", "import (\n\t\"bytes\"\n"}},
+		Expect: "R4.size-accounting", Key: "cut-at-consumed", Why: "the seeded change C04c: bytes that were read and counted are dropped before parsing, the cut lands inside the torn command"})
+	mutant(&Mutant{Name: "reset-forgets-hook-expiry-queue", Props: []string{"C06", "C05", "C14"}, File: fServer,
+		Old:    "\ts.hookExpires.Clear()\n",
+		New:    "",
+		Expect: "R6.reset-complete", Key: "reset-clears/hookExpires", Why: "the seeded change C06c: a follower that resyncs keeps the deadlines of hooks it no longer has"})
+	mutant(&Mutant{Name: "setfill-uses-rtree-replace", Props: []string{"C19", "C02", "C01", "C14"}, File: fColl,
+		Old: "\t\tif prev.IsSpatial() {\n\t\t\tc.indexDelete(prev)\n\t\t\tc.objects--\n\t\t} else {\n\t\t\tc.values.Delete(prev)\n\t\t\tc.nobjects--\n\t\t}",
+		New: "\t\tif prev.IsSpatial() {\n\t\t\tif replaced = obj.IsSpatial() && !obj.Geo().Empty(); replaced {\n\t\t\t\tpmin, pmax, _ := rtreeItem(prev)\n\t\t\t\tmin, max, _ := rtreeItem(obj)\n\t\t\t\tc.spatial.Replace(pmin, pmax, prev, min, max, obj)\n\t\t\t} else {\n\t\t\t\tc.indexDelete(prev)\n\t\t\t}\n\t\t\tc.objects--\n\t\t} else {\n\t\t\tc.values.Delete(prev)\n\t\t\tc.nobjects--\n\t\t}",
+		Edits: []Edit{
+			{fColl, "func (c *Collection) setFill(prev, obj *object.Object) {\n", "func (c *Collection) setFill(prev, obj *object.Object) {\n\tvar replaced bool\n"},
+			{fColl, "\tif obj.IsSpatial() {\n\t\tc.indexInsert(obj)\n\t\tc.objects++", "\tif obj.IsSpatial() {\n\t\tif !replaced {\n\t\t\tc.indexInsert(obj)\n\t\t}\n\t\tc.objects++"},
+		},
+		Expect: "R19.delta", Key: "insertion-independent/spatial", Why: "the seeded change C02c: rtree.Replace enters the new entry only if the old one was found, and an object with an empty geometry never was"})
+	mutant(&Mutant{Name: "neutral-setfill-uses-rtree-replace-guarded", Props: []string{"C19", "C02", "C01", "C14"}, File: fColl, Neutral: true,
+		Old: "\t\tif prev.IsSpatial() {\n\t\t\tc.indexDelete(prev)\n\t\t\tc.objects--\n\t\t} else {\n\t\t\tc.values.Delete(prev)\n\t\t\tc.nobjects--\n\t\t}",
+		New: "\t\tif prev.IsSpatial() {\n\t\t\tif replaced = obj.IsSpatial() && !obj.Geo().Empty() && !prev.Geo().Empty(); replaced {\n\t\t\t\tpmin, pmax, _ := rtreeItem(prev)\n\t\t\t\tmin, max, _ := rtreeItem(obj)\n\t\t\t\tc.spatial.Replace(pmin, pmax, prev, min, max, obj)\n\t\t\t} else {\n\t\t\t\tc.indexDelete(prev)\n\t\t\t}\n\t\t\tc.objects--\n\t\t} else {\n\t\t\tc.values.Delete(prev)\n\t\t\tc.nobjects--\n\t\t}",
+		Edits: []Edit{
+			{fColl, "func (c *Collection) setFill(prev, obj *object.Object) {\n", "func (c *Collection) setFill(prev, obj *object.Object) {\n\tvar replaced bool\n"},
+			{fColl, "\tif obj.IsSpatial() {\n\t\tc.indexInsert(obj)\n\t\tc.objects++", "\tif obj.IsSpatial() {\n\t\tif !replaced {\n\t\t\tc.indexInsert(obj)\n\t\t}\n\t\tc.objects++"},
+		},
+		Why: "the same optimisation done right: Replace is used only when the previous object is an entry of the index"})
+}
